@@ -315,11 +315,22 @@ NumberAlphabet == (48..57) \cup {43, 45, 46, 101, 69, 95, 32, 9, 10, 13}
 SurelyNotNumeric(s) == \/ \A i \in 1..Len(s) : s[i] \in {32, 9, 10, 13}
                        \/ \E i \in 1..Len(s) : s[i] \notin NumberAlphabet
 (* a float given exactly, as sign and numerator / denominator digit strings (the recorder adds them): [k |-> "f", ...] *)
+(* a positional numeral of any length: [+-]digits[.digits] with at least one digit before or after the point *)
+LongNumeral(s) ==
+  LET body == IF s # <<>> /\ s[1] \in {43, 45} THEN Tail(s) ELSE s
+      dots == {i \in 1..Len(body) : body[i] = 46}
+  IN /\ Len(body) >= 2 /\ Cardinality(dots) <= 1
+     /\ \A i \in 1..Len(body) : body[i] = 46 \/ (body[i] >= 48 /\ body[i] <= 57)
+     /\ \E i \in 1..Len(body) : body[i] # 46
+LongNegative(s) == s[1] = 45 /\ \E i \in 2..Len(s) : s[i] >= 49 /\ s[i] <= 57
+(* functions with a value for every real number, however large or small, that cannot overflow *)
+Tame == {"ABS", "ATAN", "ACOT", "TANH", "ASINH", "SIN", "COS", "RADIANS", "DEGREES"}
 MathArg(v) ==
   CASE v.t = "num" -> [k |-> "q", q |-> QOf(v)]
     [] v.t = "flt" /\ "nd" \in DOMAIN v -> [k |-> "f", neg |-> v.neg, num |-> BN!BOfDigits(v.nd), den |-> BN!BOfDigits(v.dd)]
     [] v.t = "bool" -> [k |-> "q", q |-> QI(IF v.b THEN 1 ELSE 0)]
     [] v.t = "txt" -> IF NumericText(v.s).ok THEN [k |-> "q", q |-> NumericText(v.s).q]
+                      ELSE IF LongNumeral(v.s) THEN [k |-> "long", neg |-> LongNegative(v.s)]     \* numeric text too long for TLC's integers
                       ELSE IF TextIsPlain(v.s) \/ SurelyNotNumeric(v.s) THEN [k |-> "text"] ELSE [k |-> "unspec"]
     [] OTHER -> [k |-> "unspec"]
 
@@ -355,6 +366,7 @@ MathExpect(f, args) ==
             IF a.k = "unspec" THEN EAny
             ELSE IF a.k = "text" THEN EAnyErr
             ELSE IF a.k = "f" THEN (IF ~FSmall(a) THEN EAny ELSE IF InDomainF(f, a) THEN EAnyNum ELSE EAnyErr)
+            ELSE IF a.k = "long" THEN (IF f \in Tame \/ (f = "SQRT" /\ ~a.neg) THEN EAnyNum ELSE EAny)
             ELSE IF ~ArgSmall(a.q) THEN EAny
             ELSE IF InDomain1(f, a.q) THEN EAnyNum ELSE EAnyErr
   ELSE IF Len(args) # 2 THEN EAny
@@ -362,7 +374,7 @@ MathExpect(f, args) ==
            b == MathArg(args[2])
        IN IF a.k = "unspec" \/ b.k = "unspec" THEN EAny
           ELSE IF a.k = "text" \/ b.k = "text" THEN EAnyErr
-          ELSE IF a.k = "f" \/ b.k = "f" THEN EAny
+          ELSE IF a.k \in {"f", "long"} \/ b.k \in {"f", "long"} THEN EAny
           ELSE IF ~ArgSmall(a.q) \/ ~ArgSmall(b.q) THEN EAny
           ELSE CASE f = "ATAN2" -> IF a.q.n = 0 /\ b.q.n = 0 THEN EErrs({"#DIV/0!"}) ELSE EAnyNum
                  [] f = "LOG" -> IF QPos(a.q) /\ QPos(b.q) /\ ~(b.q.n = b.q.d) THEN EAnyNum ELSE EAnyErr
@@ -421,7 +433,12 @@ TextJoinExpect(args) ==
   IF Len(args) < 3 \/ args[1].t # "txt" \/ args[2].t # "bool" THEN EAny
   ELSE LET xs == Flat(SubSeq(args, 3, Len(args)))
        IN IF \E i \in 1..Len(xs) : xs[i].t \notin {"txt", "blank"} THEN EAny
-          ELSE IF args[2].b /\ \E i \in 1..Len(xs) : xs[i].t = "txt" /\ xs[i].s = <<>> THEN EAny   \* is empty text "empty"? not stated
+          ELSE IF args[2].b /\ \E i \in 1..Len(xs) : xs[i].t = "txt" /\ xs[i].s = <<>>
+          THEN \* is empty text "a blank"?  not stated: it is kept like any text, or skipped like a blank - nothing else
+               LET texts == SelectSeq(xs, LAMBDA v : v.t = "txt")
+                   nonempty == SelectSeq(texts, LAMBDA v : v.s # <<>>)
+               IN EAlts(<<EVal(Txt(JoinSeq([i \in 1..Len(texts) |-> TextOf(texts[i])], args[1].s))),
+                          EVal(Txt(JoinSeq([i \in 1..Len(nonempty) |-> TextOf(nonempty[i])], args[1].s)))>>)
           ELSE LET kept == IF args[2].b THEN SelectSeq(xs, LAMBDA v : v.t = "txt") ELSE xs
                IN EVal(Txt(JoinSeq([i \in 1..Len(kept) |-> TextOf(kept[i])], args[1].s)))
 
